@@ -2,6 +2,7 @@ package types
 
 import (
 	"bytes"
+	"math"
 	"time"
 
 	errorsmod "cosmossdk.io/errors"
@@ -52,6 +53,21 @@ func (msg MsgCreateClawbackVestingAccount) Route() string { return RouterKey }
 // Type returns the the action
 func (msg MsgCreateClawbackVestingAccount) Type() string { return TypeMsgCreateClawbackVestingAccount }
 
+// validateScheduleEnd checks that the end of a schedule - its start time plus the lengths of
+// all its periods - fits into an int64. The lengths are summed up without overflow checks when
+// the schedule is stored and read, so a wrapped end time would make the whole grant count as
+// vested and unlocked right after the start.
+func validateScheduleEnd(startTime int64, periods sdkvesting.Periods) error {
+	end := startTime
+	for i, period := range periods {
+		if end > 0 && period.Length > math.MaxInt64-end {
+			return errorsmod.Wrapf(errortypes.ErrInvalidRequest, "invalid period length of %d in period %d, the schedule's end time overflows", period.Length, i)
+		}
+		end += period.Length
+	}
+	return nil
+}
+
 // ValidateBasic runs stateless checks on the message
 func (msg MsgCreateClawbackVestingAccount) ValidateBasic() error {
 	if _, err := sdk.AccAddressFromBech32(msg.FromAddress); err != nil {
@@ -87,6 +103,13 @@ func (msg MsgCreateClawbackVestingAccount) ValidateBasic() error {
 			return errortypes.ErrInvalidCoins.Wrap(period.Amount.String())
 		}
 		vestingCoins = vestingCoins.Add(period.Amount...)
+	}
+
+	if err := validateScheduleEnd(msg.StartTime.Unix(), msg.LockupPeriods); err != nil {
+		return err
+	}
+	if err := validateScheduleEnd(msg.StartTime.Unix(), msg.VestingPeriods); err != nil {
+		return err
 	}
 
 	// If neither schedule is present, the message is invalid.
@@ -318,6 +341,13 @@ func (msg MsgConvertIntoVestingAccount) ValidateBasic() error {
 			return errortypes.ErrInvalidCoins.Wrap(period.Amount.String())
 		}
 		vestingCoins = vestingCoins.Add(period.Amount...)
+	}
+
+	if err := validateScheduleEnd(msg.StartTime.Unix(), msg.LockupPeriods); err != nil {
+		return err
+	}
+	if err := validateScheduleEnd(msg.StartTime.Unix(), msg.VestingPeriods); err != nil {
+		return err
 	}
 
 	// If neither schedule is present, the message is invalid.
